@@ -30,13 +30,14 @@ META = dict(
                  'pooling with padding / dilation (not implemented by the library)'],
 )
 UNITS = [
-    Unit('shape_pool2d.bp', 'c17', 'verif_shape_pool2d', mode='bp', unwind=10, clause='pooling output shape, floor and ceil mode'),
-    Unit('shape_pool2d_sv.bp', 'c17', 'verif_shape_pool2d_sv', mode='bp', unwind=10, clause='pooling output shape, floor and ceil mode (rank 2..8: leading axes kept)'),
-    Unit('slice_pool2d.bp', 'c17', 'verif_slice_pool2d', mode='bp', unwind=10, unwind_loops={'slice_pool2d': 3}, clause='pooling window [o*s, min(o*s+k, n)) incl. the overhanging last window'),
-    Unit('shape_sliding_window_axes.bp', 'c17', 'verif_shape_sliding_window_axes', mode='bp', unwind=12, unwind_loops={'normalize_axis__rarr_i_2': 3, 'shape_sliding_window__rstatic_vector_ul_8_rarr_ul_2_rarr_i_2': 3}, clause='sliding window shape: listed axes shrink by window-1, window extents appended'),
+    Unit('shape_pool2d.bp', 'c17', 'verif_shape_pool2d', mode='bp', extra=['--sat-solver', 'cadical'], unwind=10, clause='pooling output shape, floor and ceil mode'),
+    Unit('shape_pool2d_sv.bp', 'c17', 'verif_shape_pool2d_sv', mode='bp', extra=['--sat-solver', 'cadical'], unwind=10, clause='pooling output shape, floor and ceil mode (rank 2..8: leading axes kept)'),
+    Unit('slice_pool2d.bp', 'c17', 'verif_slice_pool2d', mode='bp', extra=['--sat-solver', 'cadical'], unwind=10, unwind_loops={'slice_pool2d': 3}, clause='pooling window [o*s, min(o*s+k, n)) incl. the overhanging last window'),
+    Unit('shape_sliding_window_axes.bp', 'c17', 'verif_shape_sliding_window_axes', mode='bp', extra=['--sat-solver', 'cadical'], unwind=12, unwind_loops={'normalize_axis__rarr_i_2': 3, 'shape_sliding_window__rstatic_vector_ul_8_rarr_ul_2_rarr_i_2': 3}, clause='sliding window shape: listed axes shrink by window-1, window extents appended'),
     Unit('shape_sliding_window_none.bp', 'c17', 'verif_shape_sliding_window_none', mode='bp', unwind=12, clause='sliding window shape (axis=None): every axis shrinks by its window-1, window extents appended'),
-    Unit('sliding_window_axes.bp', 'c17', 'verif_sliding_window_axes', mode='bp', unwind=12, unwind_loops={'index_sliding_window__rstatic_vector_ul_10': 3}, extra=['--sat-solver', 'cadical'], clause='sliding window index: src = dst window origin + offset in window; inside the source shape'),
-    Unit('sliding_window_none.bp', 'c17', 'verif_sliding_window_none', mode='bp', unwind=12, clause='sliding window index (axis=None): src = origin + offset; inside the source shape'),
+    Unit('sliding_window_axes.bp', 'c17', 'verif_sliding_window_axes', mode='bp', unwind=12, tier='thorough', timeout=3000, unwind_loops={'index_sliding_window__rstatic_vector_ul_10': 3}, extra=['--sat-solver', 'cadical'], clause='sliding window index: src = dst window origin + offset in window; inside the source shape'),
+    Unit('sliding_window_conv.bp', 'c17', 'verif_sliding_window_conv', mode='bp', unwind=12, unwind_loops={'index_sliding_window__rstatic_vector_ul_10': 3}, extra=['--sat-solver', 'cadical'], clause='sliding window index for the axes convnd uses (-1,-2): src = window origin + offset in window; inside the source shape'),
+    Unit('sliding_window_none.bp', 'c17', 'verif_sliding_window_none', mode='bp', extra=['--sat-solver', 'cadical'], unwind=12, clause='sliding window index (axis=None): src = origin + offset; inside the source shape'),
     Unit('conv_reshape_input.uf', 'c17', 'verif_conv_reshape_input', mode='uf', unwind=12, unwind_loops={'conv_reshape_input': 3}, clause='conv: input viewed as (N, 1, G, C/G, H, W) -- batch kept, channels split into groups'),
     Unit('conv_reshape_weight.bp', 'c17', 'verif_conv_reshape_weight', mode='bp', unwind=12, unwind_loops={'conv_reshape_weight': 2}, clause='conv: weight viewed with a group axis such that output channel c belongs to group c / (Co/G)'),
     Unit('conv_reshape_reduce.uf', 'c17', 'verif_conv_reshape_reduce', mode='uf', unwind=12, unwind_loops={'conv_reshape_reduce': 4}, clause='conv: summed result viewed as (N, Co, H_out, W_out)'),
